@@ -845,6 +845,14 @@ func (e *Env) call(n ECall) Term {
 		}
 		return wrapTo(e.tr(n.Args[0]), t)
 	}
+	if strings.HasPrefix(n.Fun, "bv") && len(n.Fun) > 4 {
+		fv.usedSpecs[n.Fun] = true
+		var args []Term
+		for _, a := range n.Args {
+			args = append(args, e.tr(a))
+		}
+		return mk(SInt, n.Fun, args...)
+	}
 	if t, ok := convTypes[n.Fun]; ok {
 		argN(1)
 		r := wrapTo(e.tr(n.Args[0]), t)
